@@ -39,17 +39,20 @@ theorem toepCoordOversamp_eq : Gen.toepCoordOversamp = 2 := by
 theorem toep_embed_len (n : Int) : Gen.toepEmbedLen n = 2 * n := by
   unfold Gen.toepEmbedLen Gen.oversampLen
   rw [toepShapeOversamp_eq]
-  have : (2 : Rat) * ((n : Int) : Rat) = ((2 * n : Int) : Rat) := by push_cast; ring
-  rw [this, Rat.ceil_intCast]
+  have h : ∀ q : Rat, q = ((2 * n : Int) : Rat) → Rat.ceil q = 2 * n := fun q hq => by rw [hq, Rat.ceil_intCast]
+  exact h _ (by push_cast; ring)
 
 /-- `new_coord = 2·coord + 2N`: the image coordinates doubled (the embedding grid samples the same frequencies at
     half the spacing) plus exactly one period `2N` of the embedding grid (which `nufft` ignores: `nufft_periodic1`) -/
 theorem toep_coord_doubled (n : Int) (hn : n ≠ 0) (c : Rat) :
     Gen.toepScaleCoord n c = 2 * c + ((Gen.toepEmbedLen n : Int) : Rat) := by
-  unfold Gen.toepScaleCoord Gen.scaleCoord Gen.scaleFactor Gen.scaleShift
-  rw [toepCoordOversamp_eq, toep_embed_len]
-  have h4 : (2 : Rat) * (((2 * n : Int) : Int) : Rat) = ((4 * n : Int) : Rat) := by push_cast; ring
-  rw [h4, Rat.ceil_intCast, pyDiv_of_pos _ (show (0 : Int) < 2 by decide)]
+  unfold Gen.toepScaleCoord Gen.scaleCoord
+  rw [(os_sites_agree _ _).2.1, (os_sites_agree _ _).2.2, toepCoordOversamp_eq, toep_embed_len]
+  have h4 : Gen.oversampLen 2 (2 * n) = 4 * n := by
+    unfold Gen.oversampLen
+    have h : ∀ q : Rat, q = ((4 * n : Int) : Rat) → Rat.ceil q = 4 * n := fun q hq => by rw [hq, Rat.ceil_intCast]
+    exact h _ (by push_cast; ring)
+  rw [h4, pyDiv_of_pos _ (show (0 : Int) < 2 by decide)]
   have h2 : 4 * n / 2 = 2 * n := by omega
   rw [h2]
   have : ((n : Int) : Rat) ≠ 0 := by exact_mod_cast hn
